@@ -1275,6 +1275,9 @@ func uncontrolledSources(b *build) string {
 	if gs, _ := b.instr["go_statements"].([]any); len(gs) > 0 {
 		out = append(out, "goroutines started inside the library")
 	}
+	if mr, _ := b.instr["map_ranges"].([]any); len(mr) > 0 {
+		out = append(out, fmt.Sprintf("iteration over Go maps (randomised order) at %v", mr))
+	}
 	if l, _ := b.instr["sync_left_real"].([]any); len(l) > 0 {
 		out = append(out, "real sync primitives")
 	}
